@@ -68,6 +68,15 @@ func Shrink(raw json.RawMessage) []json.RawMessage {
 			emit(func(c *Scenario) bool { c.Runs = append(c.Runs[:i], c.Runs[i+1:]...); return true })
 		}
 	}
+	if sc.RulesKind != "" {
+		emit(func(c *Scenario) bool { c.RulesKind = ""; return true })
+	}
+	if len(sc.Mutations) > 1 {
+		for i := range sc.Mutations {
+			i := i
+			emit(func(c *Scenario) bool { c.Mutations = append(c.Mutations[:i], c.Mutations[i+1:]...); return true })
+		}
+	}
 	if sc.SharedPacker {
 		emit(func(c *Scenario) bool { c.SharedPacker = false; return true })
 	}
